@@ -136,7 +136,7 @@ impl Top for BTreeMap<String, String> {
 
 /* ---- finite domains ---- */
 
-const CHARS: [char; 10] = ['a', '&', '=', '%', '+', ' ', ',', '/', '\u{e9}', '\u{1F600}'];
+const CHARS: [char; 12] = ['a', '&', '=', '%', '+', ' ', ',', '/', '\u{e9}', '\u{1F600}', '\n', '\u{1}'];
 
 /// all strings of length 0..=max over CHARS, shortest first (so a longer bound extends the sequence)
 fn strings(max: usize) -> Vec<String> {
